@@ -21,6 +21,7 @@ def configs():
   P['deep'] = lambda: fdl.Config(pool.fc, fdl.Config(pool.fc, fdl.Config(pool.fb, 1, y=[{'z': 2}])), q='q')
   P['partial'] = lambda: fdl.Partial(pool.fc, 'p', q={'x': [1, 2]})
   P['bytes-negative'] = lambda: fdl.Config(pool.fb, -5, y=b'by')
+  P['numeric-string-keys'] = lambda: fdl.Config(pool.fc, {'3': fdl.Config(pool.fb, 1), 3: fdl.Config(pool.fb, 2), '10': fdl.Config(pool.fb, 3)}, q={'007': 'a', 7: 'b'})
   P['tuple-holder'] = lambda: fdl.Config(pool.fc, 'p', q=(1, 2))   # leaves inside tuples: not override targets
   return P
 
